@@ -295,7 +295,11 @@ fn c07_errors(rep: &mut Report, r: &mut Rng, shard: u64, nshards: u64) {
                         }
                     }
                     // ... or re-targeted it (separate response: own type and message id), or touched other parts
-                    let premut = r.below(6);
+                    let premut = r.below(7);
+                    if premut == 6 {
+                        // the reply was already taken out and sent: nothing is left to apply an error to
+                        rq.response = None;
+                    }
                     if let Some(resp) = rq.response.as_mut() {
                         match premut {
                             4 => {
